@@ -365,7 +365,8 @@ def run(run):
             tree = build_tree(run.rng("tree", i), decls, "main.fcp", 0, counter)
             if counter[0] == 0:
                 continue
-            root = os.path.join(tmp, "s%d" % i)
+            # (every third tree lives below directories with dots in their names: vehicle-1.2/)
+            root = os.path.join(tmp, "s%d" % i) if i % 3 else os.path.join(tmp, "s%d.rev-1.2" % i, "v0.9")
             os.makedirs(root)
             compare_split(run, i, decls, tree, root)
             shutil.rmtree(root)
